@@ -47,6 +47,11 @@ PROPS = {
         note="ASCII model; '*', '?' or 'x=' with an empty base, signed/underscored integers and symbolic garbage are the §6 zones (model mirrors the code, no claim).",
         technique="Lean 4 proof (permutation invariance of modifier stripping, whitespace splitting) + exhaustive token enumeration",
     ),
+    "C06": dict(
+        text="Kernel-checked theorems about a model of the three storage cells (context stack, '?'-leaf label, flatten-mode flag) under threads, each cell thread-local or process-global as read from the current _storage.py: with thread-local cells, for every family of thread programs (any number of threads; a step is an ARBITRARY function of the cells the running thread sees, so every granularity of preemption is covered), every initial world and EVERY schedule, what a thread observes - its cells, its position, its transcript of verdicts and bindings - is what it observes running alone for as many steps as the schedule gave it (induction over the schedule: frame + determinism); the cells read from the source today are all thread-local (decide); each cell matters (with any one process-global a two-thread schedule makes thread 0 read thread 1's write). On the real code: 3 real threads under a deterministic settrace scheduler (no source hook), preemptible at every line of _storage.py (quick) or of every jaxtyping file (thorough); for every thread A and EVERY yield point p of A the other threads run to completion inside A's p-th point, plus seeded two-window and multi-segment schedules; workloads of context blocks, new/old-style calls, array checks, PyTree checks with '?' axes and structure names, custom nodes, rollbacks and leak-revealing probes; per-thread transcripts must equal the solo run, which must equal the Lean model's sequential prediction.",
+        note="Partial: the theorem speaks about interleavings of steps over the modelled cells; CPython's threading.local implementation, the GIL, C extensions (jax.tree_util) and preemption between two bytecodes of one source line are not exhibited by the model nor exercised by the scheduler. Process-global state outside _storage.py (the config flags, the lru caches, the per-annotation transparency switch of known finding F2) is outside this property's cells.",
+        technique="Lean 4 proof (non-interference for every schedule by induction, extracted storage kinds) + systematic one-preemption schedule enumeration on real threads",
+    ),
     "C07": dict(
         text="Kernel-checked theorems about the wrapper's control flow and name generation: _gensym terminates and is fresh for every finite name set; every identifier the synthesised def uses is distinct from every other, from all parameter names and from the function name; on a binding new-style call the body starts exactly once when the parameter pass accepts and not at all when it rejects; a non-binding call raises before any context is opened; the body's own exception passes through; the source calls the wrapped function at exactly one place. On the real code: generated signatures over all five parameter kinds, defaults, colliding names, def / lambda / async def, all descriptor kinds, both typecheckers: call counter, identity of arguments and result, exception class, metadata, inspect.signature, and the generated identifier scope against the model.",
         note="Metadata (__name__, __qualname__, __doc__, __module__, signature, descriptor kind) is functools.wraps / descriptor unwrapping and is evaluated on the implementation only. Known finding F4 (async def with a return annotation) is reported as KNOWN-FINDING.",
